@@ -453,12 +453,27 @@ func NormalizeIDs(items []any) []any {
 					default:
 						return v
 					}
-					n, ok := seen[k]
-					if !ok {
-						n = len(seen) + 1
-						seen[k] = n
+					ord := func(k string) string {
+						n, ok := seen[k]
+						if !ok {
+							n = len(seen) + 1
+							seen[k] = n
+						}
+						return fmt.Sprintf("id#%d", n)
 					}
-					return map[string]any{"id": fmt.Sprintf("id#%d", n), "key": v["key"], "value": norm(v["value"])}
+					// the value of a triple of a triple may be an id too (an
+					// int64 in implementation output: documents hold float64
+					// or json.Number numbers, never int64)
+					val := v["value"]
+					switch x := val.(type) {
+					case KVID:
+						val = ord("m" + x.Owner)
+					case int64:
+						val = ord(fmt.Sprintf("i%d", x))
+					default:
+						val = norm(val)
+					}
+					return map[string]any{"id": ord(k), "key": v["key"], "value": val}
 				}
 			}
 			// plain object: members cannot contain generated triples unless
